@@ -7,7 +7,7 @@ use crate::{for_both, hx, Ctx, Tier};
 use blsful::*;
 use serde_json::json;
 
-pub const RULE: &str = "EXHAUSTIVE (t,n) for n<=4 (quick) / n<=5 (thorough) x every subset of every size x 3 ciphertext schemes x 2 groups, plus (2,9),(5,9),(2,255) and in the thorough tier (255,255),(16,32) with subsets of size t-1,t,n. Per split: every participant's decryption share must verify against its own public-key share and the ciphertext (all 3 schemes are required cells); mismatch matrix share i x key-share j x {same ciphertext, another ciphertext to the same key, same (u,v,w) under another scheme label}; decrypt_with_shares(subset) and SignCryptDecryptionKey::from_shares(subset).decrypt(ct): >=t distinct shares must return the message, <t must not; the reference interpolates u*sk from the decryption-share BYTES and opens the ciphertext. History clusters (1 quick / 6 thorough per group): for one 2-of-3 split the ciphertext of every scheme, its relabelled copies and a second ciphertext; each participant's share against its own and a foreign key share and each copy, decrypt_with_shares and the decryption key from shares on each copy, asked in ordered pairs (a,b) as a,b,b,a; every answer must equal the answer the question has on its own. Distinct by (suite,scheme,t,n,subset,path).";
+pub const RULE: &str = "EXHAUSTIVE (t,n) for n<=4 (quick) / n<=5 (thorough) x every subset of every size x 3 ciphertext schemes x 2 groups, plus (2,9),(5,9),(2,255) - the latter also recombined from its 10 highest identifiers (both orders), its 21 lowest and 9 around 128 - and in the thorough tier (255,255),(16,32) with subsets of size t-1,t,n. Per split: every participant's decryption share must verify against its own public-key share and the ciphertext (all 3 schemes are required cells); mismatch matrix share i x key-share j x {same ciphertext, another ciphertext to the same key, same (u,v,w) under another scheme label}; decrypt_with_shares(subset) and SignCryptDecryptionKey::from_shares(subset).decrypt(ct): >=t distinct shares must return the message, <t must not; the reference interpolates u*sk from the decryption-share BYTES and opens the ciphertext. History clusters (1 quick / 6 thorough per group): for one 2-of-3 split the ciphertext of every scheme, its relabelled copies and a second ciphertext; each participant's share against its own and a foreign key share and each copy, decrypt_with_shares and the decryption key from shares on each copy, asked in ordered pairs (a,b) as a,b,b,a; every answer must equal the answer the question has on its own. Distinct by (suite,scheme,t,n,subset,path).";
 
 pub fn run(ctx: &mut Ctx) {
     for_both!(run_suite, ctx);
@@ -155,6 +155,14 @@ fn one<C: Suite>(ctx: &mut Ctx, g: u64, scheme: Scheme, t: usize, nn: usize, exh
         }
         // the participants with the smallest and the largest identifier together
         v.push(vec![nn - 1, 0]);
+        // many shares with large identifiers (the product of identifiers passes 64 bits), in both
+        // orders; many small ones; a run around 128
+        if nn >= 255 && t <= 9 {
+            v.push((nn - 10..nn).collect());
+            v.push((nn - 10..nn).rev().collect());
+            v.push((0..21).collect());
+            v.push((124..133).collect());
+        }
         if t <= 3 && nn >= 3 {
             v.push(vec![nn - 2, nn - 1, 0]);
         }
